@@ -7,7 +7,7 @@ export PATH=/opt/veriftools/go1.26.8/bin:$PATH GOFLAGS=-mod=mod GOPROXY=off GOSU
 f=$(readlink -f "$1"); repo="${2:-${VERIF_REPO:-/repo}}"
 pkg=$(head -1 "$f" | sed -n 's|^// replay-pkg: *||p')
 [ -n "$pkg" ] || { echo "no replay-pkg header in $f" >&2; exit 2; }
-tmp=$(mktemp -d /verif/out/replaytmp.XXXXXX 2>/dev/null || mktemp -d)
+tmp=$(mktemp -d ${VERIF_OUT:-/verif/out}/replaytmp.XXXXXX 2>/dev/null || mktemp -d)
 trap 'rm -rf "$tmp"' EXIT
 base=$(basename "$f" .go)
 echo "{\"Replace\": {\"$repo/$pkg/zz_${base}_test.go\": \"$f\"}}" > $tmp/ov.json
